@@ -716,3 +716,369 @@ def history_replay(case):
 
 def history_expected_branches():
     return ['history/reuse-after-derive/' + k for k in HISTORY_KINDS] + ['history/shared-child']
+
+
+# --------------------------------------------------------------------------
+# WIDE stream (shared by C08 and C09, oracle-only: the Lean model is real): complex, float32 and
+# minimal-size spaces; the three CALLING CONVENTIONS of every operator-valued attribute the
+# properties observe (out-of-place, out= separate NaN-prefilled, out=x aliased on a copy) must
+# agree before the property oracle runs; NumericalGradient / NumericalDerivative against their
+# documented formulas.
+
+def wide_spaces():
+    import odl
+    return [
+        ('cn3', odl.cn(3), 'complex'),
+        ('cn2c64', odl.cn(2, dtype='complex64'), 'complex'),
+        ('udc3', odl.uniform_discr(0, 1, 3, dtype='complex128'), 'complex'),
+        ('rn3f32', odl.rn(3, dtype='float32'), 'float32'),
+        ('ud4f32', odl.uniform_discr(0, 1, 4, dtype='float32'), 'float32'),
+        ('rn1', odl.rn(1), 'size1'),
+        ('ud1', odl.uniform_discr(0, 1, 1), 'size1'),
+        ('rn1f32', odl.rn(1, dtype='float32'), 'size1'),
+        ('ps1', odl.ProductSpace(odl.rn(2), 1), 'size1'),
+        ('rn3', odl.rn(3), 'base'),
+        ('ud4', odl.uniform_discr(0, 1, 4), 'base'),
+        ('ps22', odl.ProductSpace(odl.rn(2), 2), 'base'),
+    ]
+
+
+def _w_is_pspace(sp):
+    import odl
+    return isinstance(sp, odl.ProductSpace)
+
+
+def _w_dtype(sp):
+    return np.dtype(sp[0].dtype if _w_is_pspace(sp) else sp.dtype)
+
+
+def _w_flat(sp, x):
+    if _w_is_pspace(sp):
+        return np.concatenate([np.asarray(p).ravel() for p in x])
+    return np.asarray(x).ravel().copy()
+
+
+def _w_elem(sp, rng, lo=-8, hi=8, den=4.0, scale=1.0):
+    dt = _w_dtype(sp)
+
+    def arr(shape):
+        n = int(np.prod(shape)) if shape else 1
+        re = np.array([rng.randint(lo, hi) / den for _ in range(n)]) * scale
+        if np.issubdtype(dt, np.complexfloating):
+            im = np.array([rng.choice([0, 1, -2, 3, -1, 2]) / den * 2 for _ in range(n)]) * scale
+            re = re + 1j * im
+        return re.astype(dt).reshape(shape)
+    if _w_is_pspace(sp):
+        return sp.element([arr(s.shape) for s in sp])
+    return sp.element(arr(sp.shape))
+
+
+def _w_tol(sp):
+    return 2e-4 if _w_dtype(sp) in (np.dtype('float32'), np.dtype('complex64')) else 1e-9
+
+
+def _w_classes():
+    """(name, constructor(space), admits complex spaces, has gradient, has proximal pair)"""
+    import odl
+    import odl.solvers as sol
+    from odl.solvers.functional import functional as F
+
+    def quot(sp):
+        return F.FunctionalQuotient(sol.L2NormSquared(sp).translated(sp.one()),
+                                    sol.L2NormSquared(sp) + 1.0)
+
+    def prod(sp):
+        return F.FunctionalProduct(sol.L2NormSquared(sp), sol.L2NormSquared(sp).translated(sp.one()) + 2.0)
+    return [
+        ('L1Norm', lambda sp: sol.L1Norm(sp), True, True, True),
+        ('L2Norm', lambda sp: sol.L2Norm(sp), True, True, True),
+        ('L2NormSquared', lambda sp: sol.L2NormSquared(sp), True, True, True),
+        ('Huber', lambda sp: sol.Huber(sp, 0.5), True, True, True),
+        ('LpNormInf', lambda sp: sol.LpNorm(sp, np.inf), True, False, True),
+        ('IndicatorLpUnitBall1', lambda sp: sol.IndicatorLpUnitBall(sp, 1), True, False, True),
+        ('IndicatorLpUnitBall2', lambda sp: sol.IndicatorLpUnitBall(sp, 2), True, False, True),
+        ('IndicatorLpUnitBallInf', lambda sp: sol.IndicatorLpUnitBall(sp, np.inf), True, False, True),
+        ('ConstantFunctional', lambda sp: sol.ConstantFunctional(sp, 1.5), True, True, True),
+        ('Translation(L1)', lambda sp: sol.L1Norm(sp).translated(sp.one()), True, True, True),
+        ('LeftScalarMult(L2sq)', lambda sp: 2.0 * sol.L2NormSquared(sp), True, True, True),
+        ('RightScalarMult(Huber)', lambda sp: sol.Huber(sp, 0.5) * 2.0, True, True, True),
+        ('Sum(L2sq,L1)', lambda sp: sol.L2NormSquared(sp) + sol.L1Norm(sp), True, True, False),
+        ('QuadraticPerturb(L1)', lambda sp: F.FunctionalQuadraticPerturb(
+            sol.L1Norm(sp), quadratic_coeff=1.0, constant=1.0), True, True, True),
+        ('Quotient', quot, True, True, False),
+        ('Product', prod, True, True, False),
+        ('KullbackLeibler', lambda sp: sol.KullbackLeibler(sp), False, True, True),
+        ('QuadraticFormLinear', lambda sp: sol.QuadraticForm(vector=sp.one(), constant=0.5),
+         False, True, False),
+    ]
+
+
+WIDE_ATTRS = {'C08': ('proximal', 'conj-proximal', 'gradient'),
+              'C09': ('gradient', 'numgrad-forward', 'numgrad-backward', 'numgrad-central',
+                      'numderiv-of-gradient')}
+
+
+def _w_close(sp, a, b):
+    a, b = np.asarray(a), np.asarray(b)
+    if a.shape != b.shape:
+        return False
+    tol = _w_tol(sp)
+    sc = max(1.0, float(np.max(np.abs(a))) if a.size else 1.0)
+    with np.errstate(all='ignore'):
+        return bool(np.all(np.isfinite(a) == np.isfinite(b)) and
+                    np.all(np.abs(np.where(np.isfinite(a), a - b, 0)) <= tol * sc))
+
+
+def _w_conventions(sp, op, x):
+    """out-of-place, out= separate (NaN-prefilled), out=x aliased (on a copy). Returns
+    (r0, problems[(convention, description)])."""
+    r0 = op(x)
+    f0 = _w_flat(sp, r0)
+    probs = []
+    if r0 not in op.range:
+        probs.append(('out-of-place', 'result not in the range'))
+    out = op.range.element()
+    if _w_is_pspace(op.range):
+        for p in out:
+            np.asarray(p)[...] = np.nan
+    else:
+        np.asarray(out)[...] = np.nan
+    try:
+        r1 = op(x, out=out)
+        f1 = _w_flat(sp, out)
+        if r1 is not out:
+            probs.append(('separate', 'returned object is not `out`'))
+        if not _w_close(sp, f0, f1):
+            probs.append(('separate', 'op(x, out=y) = {} but op(x) = {}'.format(f1.tolist()[:4], f0.tolist()[:4])))
+    except Exception as e:  # noqa
+        probs.append(('separate', 'op(x, out=y) raised {}: {}'.format(type(e).__name__, str(e)[:100])))
+    if op.range == op.domain:
+        xc = x.copy()
+        xin = _w_flat(sp, x)
+        try:
+            op(xc, out=xc)
+            f2 = _w_flat(sp, xc)
+            if not _w_close(sp, f0, f2):
+                probs.append(('aliased', 'op(x, out=x) = {} but op(x) = {} (x = {})'.format(
+                    f2.tolist()[:4], f0.tolist()[:4], xin.tolist()[:4])))
+        except Exception as e:  # noqa
+            probs.append(('aliased', 'op(x, out=x) raised {}: {}'.format(type(e).__name__, str(e)[:100])))
+    return r0, probs
+
+
+def _rv(v):
+    return complex(v).real
+
+
+def _w_numgrad_doc(f, sp, x, method, step):
+    """NumericalGradient by its documented formula, entry by entry."""
+    n = sp.size
+    out = np.zeros(n)
+    xa = np.asarray(x).ravel().copy()
+    for i in range(n):
+        e = np.zeros(n, dtype=xa.dtype)
+        e[i] = step if method != 'central' else step / 2
+        xp = sp.element((xa + e).reshape(sp.shape))
+        xm = sp.element((xa - e).reshape(sp.shape))
+        if method == 'forward':
+            out[i] = (_rv(f(xp)) - _rv(f(x))) / step
+        elif method == 'backward':
+            out[i] = (_rv(f(x)) - _rv(f(xm))) / step
+        else:
+            out[i] = (_rv(f(xp)) - _rv(f(xm))) / step
+    return out
+
+
+def wide_stream(ctx, mode, reps=1):
+    import odl
+    from odl.solvers.functional.derivatives import NumericalGradient, NumericalDerivative
+    rng = ctx.rng
+    for sname, sp, skind in wide_spaces():
+        is_c = np.issubdtype(_w_dtype(sp), np.complexfloating)
+        for cname, ctor, admits_c, has_grad, has_prox in _w_classes():
+            if is_c and not admits_c:
+                continue
+            if cname in ('Huber',) and _w_is_pspace(sp) and not sp.is_power_space:
+                continue
+            if cname == 'KullbackLeibler' and _w_is_pspace(sp):
+                continue
+            key0 = 'wide space={}({}) class={}'.format(sname, skind, cname)
+            desc0 = {'wide': True, 'space': sname, 'class': cname, 'mode': mode}
+            st, f = safe_call(ctor, sp)
+            if st != 'ok':
+                ctx.violation('construct ' + key0, st, desc0)
+                continue
+            if skind != 'base':
+                ctx.hit('space/{}/{}'.format(skind, cname))
+            for rep in range(reps):
+                seed = rng.getrandbits(40)
+                probs = wide_case(ctx, mode, sname, sp, skind, cname, f, has_grad, has_prox, seed)
+                ctx.case(('wide', skind, cname, mode))
+                for key, what in probs[:3]:
+                    ctx.violation('{} {}'.format(key, key0), what, dict(desc0, seed=seed))
+
+
+def wide_case(ctx, mode, sname, sp, skind, cname, f, has_grad, has_prox, seed, hit=True):
+    """One functional on one space with one random point: conventions, then the oracles."""
+    import random
+    from odl.solvers.functional.derivatives import NumericalGradient, NumericalDerivative
+    rng = random.Random(seed)
+    is_c = np.issubdtype(_w_dtype(sp), np.complexfloating)
+    problems = []
+    big = rng.random() < 0.6
+    x = _w_elem(sp, rng, 3, 10, 4.0) if cname == 'KullbackLeibler' else \
+        _w_elem(sp, rng, -12 if big else -4, 12 if big else 4, 4.0)
+    d = _w_elem(sp, rng, -4, 4, 2.0)
+    y = _w_elem(sp, rng, -4, 4, 8.0)
+    sigma = rng.choice([0.5, 1.0, 2.0])
+    tol = _w_tol(sp)
+
+    def conv(attr, op, pt):
+        try:
+            r0, probs = _w_conventions(sp, op, pt)
+        except Exception as e:  # noqa
+            problems.append(('convention-raises ' + attr, 'op(x) raised {}: {}'.format(
+                type(e).__name__, str(e)[:120])))
+            return None
+        for c, what in probs:
+            problems.append(('convention/{}/{}'.format(c, attr), what))
+        if hit:
+            ctx.hit('convention/aliased/{}/{}'.format(attr, cname))
+            ctx.hit('convention/separate/{}/{}'.format(attr, cname))
+        return r0
+    grad = None
+    if has_grad:
+        st, G = safe_call(lambda: f.gradient)
+        if st != 'ok':
+            problems.append(('gradient-raises', st))
+        else:
+            grad = conv('gradient', G, x)
+    def rv(v):
+        # functionals on complex spaces return complex numbers with zero imaginary part
+        v = complex(v)
+        if abs(v.imag) > 1e3 * tol * max(1.0, abs(v.real)):
+            raise ValueError('functional value {!r} is not real'.format(v))
+        return v.real
+    fx = None
+    st, fx = safe_call(lambda: rv(f(x)))
+    if st != 'ok':
+        if is_c and ('LinearSpaceTypeError' in st or 'TypeError' in st):
+            # the class's `_call` does not support complex spaces at all (raises for every x):
+            # outside the quantifier ("functionals the library can evaluate"); recorded as stratum
+            if hit:
+                ctx.hit('space/complex-unsupported/' + cname)
+            return [p_ for p_ in problems if not p_[0].startswith('convention')]
+        problems.append(('value-raises', st))
+        return problems
+    if mode == 'C08':
+        st, g = safe_call(lambda: f.convex_conj)
+        if st == 'ok':
+            st, gy = safe_call(lambda: rv(g(y)))
+            if st == 'ok' and math.isfinite(fx) and math.isfinite(gy):
+                xy = float(np.real(x.inner(y)))
+                if fx + gy < xy - 1e3 * tol * max(1.0, abs(fx), abs(gy), abs(xy)):
+                    problems.append(('fenchel-young-inequality',
+                                     'f(x)+f*(y) = {!r} < Re<x,y> = {!r}'.format(fx + gy, xy)))
+            if grad is not None and math.isfinite(fx):
+                st, gg = safe_call(lambda: rv(g(grad)))
+                if st == 'ok' and gg == float('inf'):
+                    st, gg = safe_call(lambda: rv(g(grad * (1 - 1e3 * tol))))
+                xg = float(np.real(x.inner(grad)))
+                if st == 'ok' and not (math.isfinite(gg) and abs(fx + gg - xg) <=
+                                       1e3 * tol * max(1.0, abs(fx), abs(xg))):
+                    problems.append(('fenchel-young-equality',
+                                     'at y = grad f(x): f(x)+f*(y) = {!r} but Re<x,y> = {!r}'.format(
+                                         fx + gg, xg)))
+            if has_prox:
+                st, P = safe_call(lambda: f.proximal(sigma))
+                st2, Q = safe_call(lambda: g.proximal(1.0 / sigma))
+                p1 = conv('proximal', P, x) if st == 'ok' else None
+                p2 = conv('conj-proximal', Q, x / sigma) if st2 == 'ok' else None
+                if p1 is not None and p2 is not None:
+                    res = _w_flat(sp, p1 + sigma * p2 - x)
+                    if not np.all(np.abs(res) <= 1e2 * tol * max(1.0, float(x.norm()))):
+                        problems.append(('moreau', 'prox_(sigma f)(x) + sigma prox_(f*/sigma)(x/sigma) - x '
+                                         '= {} (sigma={}, x={})'.format(res.tolist()[:4], sigma,
+                                                                        _w_flat(sp, x).tolist()[:4])))
+    else:
+        if grad is not None and math.isfinite(fx):
+            # real directional derivative of the real-valued functional along the (complex) d
+            h = 2.0 ** -6 if tol > 1e-6 else 2.0 ** -10
+            with np.errstate(all='ignore'):
+                D1 = (rv(f(x + h * d)) - rv(f(x - h * d))) / (2 * h)
+                D2 = (rv(f(x + h / 2 * d)) - rv(f(x - h / 2 * d))) / h
+            gd = float(np.real(grad.inner(d)))
+            fdtol = 2e-2 if tol > 1e-6 else 1e-5
+            if math.isfinite(D1) and math.isfinite(D2) and abs(D1 - D2) <= fdtol * max(1.0, abs(D2)):
+                if abs(D2 - gd) > 4 * fdtol * max(1.0, abs(D2), abs(gd)):
+                    problems.append(('gradient', 'Re<grad f(x), d> = {!r} but central differences of the '
+                                     'values along d give {!r}'.format(gd, D2)))
+            st, dd = safe_call(lambda: f.derivative(x)(d))
+            if st == 'ok' and abs(float(np.real(dd)) - gd) > 1e2 * tol * max(1.0, abs(gd)):
+                problems.append(('derivative', 'derivative(x)(d) = {!r} but <grad f(x), d> = {!r}'.format(dd, gd)))
+        if not _w_is_pspace(sp) and not is_c and math.isfinite(fx):
+            step = 2.0 ** -4 if tol > 1e-6 else 2.0 ** -8
+            for method in ('forward', 'backward', 'central'):
+                st, N = safe_call(NumericalGradient, f, method, step)
+                if st != 'ok':
+                    problems.append(('numgrad-raises', st))
+                    continue
+                r = conv('numgrad-' + method, N, x)
+                if r is None:
+                    continue
+                st, doc = safe_call(_w_numgrad_doc, f, sp, x, method, step)
+                if st == 'ok' and np.all(np.isfinite(doc)) and not np.all(
+                        np.abs(_w_flat(sp, r) - doc) <= 50 * tol / step * max(1.0, abs(fx))):
+                    problems.append(('numerical-gradient/' + method,
+                                     'NumericalGradient(x) = {} but the documented difference quotients '
+                                     'are {} (x = {}, step = {})'.format(_w_flat(sp, r).tolist()[:4],
+                                                                         doc.tolist()[:4],
+                                                                         _w_flat(sp, x).tolist()[:4], step)))
+            if has_grad and cname not in ('L1Norm', 'Translation(L1)'):
+                st, ND = safe_call(lambda: NumericalDerivative(f.gradient, x, 'central', step))
+                if st == 'ok':
+                    r = conv('numderiv-of-gradient', ND, d)
+                    st, doc = safe_call(lambda: (f.gradient(x + (step / 2 / float(d.norm())) * d) -
+                                                 f.gradient(x - (step / 2 / float(d.norm())) * d)) *
+                                        (float(d.norm()) / step))
+                    if r is not None and st == 'ok' and float(d.norm()) > 0 and \
+                            not _w_close(sp, _w_flat(sp, r), _w_flat(sp, doc)):
+                        problems.append(('numerical-derivative', 'NumericalDerivative(grad f, x)(d) = {} but '
+                                         'the documented quotient is {}'.format(
+                                             _w_flat(sp, r).tolist()[:4], _w_flat(sp, doc).tolist()[:4])))
+    return problems
+
+
+def wide_replay(case):
+    for sname, sp, skind in wide_spaces():
+        if sname != case['space']:
+            continue
+        for cname, ctor, admits_c, has_grad, has_prox in _w_classes():
+            if cname == case['class']:
+                class _C(object):
+                    def hit(self, *a):
+                        pass
+                probs = wide_case(_C(), case['mode'], sname, sp, skind, cname, ctor(sp), has_grad,
+                                  has_prox, int(case['seed']), hit=False)
+                return '; '.join('{}: {}'.format(k, w) for k, w in probs[:2]) or None
+    return None
+
+
+def wide_expected_branches(mode):
+    out = []
+    import odl  # noqa
+    for sname, sp, skind in wide_spaces():
+        is_c = skind == 'complex'
+        for cname, ctor, admits_c, has_grad, has_prox in _w_classes():
+            if is_c and not admits_c:
+                continue
+            if skind != 'base' and not (cname == 'KullbackLeibler' and _w_is_pspace(sp)):
+                out.append('space/{}/{}'.format(skind, cname))
+            if has_grad:
+                out.append('convention/aliased/gradient/' + cname)
+            if mode == 'C08' and has_prox:
+                out.append('convention/aliased/proximal/' + cname)
+                out.append('convention/aliased/conj-proximal/' + cname)
+            if mode == 'C09':
+                out.append('convention/aliased/numgrad-central/' + cname)
+    return sorted(set(out))
